@@ -1,6 +1,7 @@
 package checks
 
 import (
+	"bytes"
 	"fmt"
 
 	vmcommon "github.com/ElrondNetwork/elrond-vm-common"
@@ -152,6 +153,15 @@ func Catalogue(env *world.Env) []CatEntry {
 	add("SaveKeyValue/unchanged-growing-shrinking", base, uni.Call(A0, A0, vmcommon.BuiltInFunctionSaveKeyValue, []byte("k1"), []byte("vv"), []byte("k3"), []byte("vvvvv"), []byte("k2"), []byte("v")))
 	add("SaveKeyValue/all-unchanged", base, uni.Call(A0, A0, vmcommon.BuiltInFunctionSaveKeyValue, []byte("k1"), []byte("vv"), []byte("k2"), []byte("vvvv")))
 	add("SaveKeyValue/delete", base, uni.Call(A0, A0, vmcommon.BuiltInFunctionSaveKeyValue, []byte("k1"), []byte{}))
+	// values much longer than their keys emptied, shrunk to one byte, emptied and set again in one call
+	long := after(base, uni.Call(A0, A0, vmcommon.BuiltInFunctionSaveKeyValue, []byte("q"), bytes.Repeat([]byte("v"), 40), []byte("r"), bytes.Repeat([]byte("w"), 300)))
+	add("SaveKeyValue/delete-long-values", long, uni.Call(A0, A0, vmcommon.BuiltInFunctionSaveKeyValue, []byte("q"), []byte{}, []byte("r"), []byte{}))
+	add("SaveKeyValue/shrink-long-value-to-one-byte", long, uni.Call(A0, A0, vmcommon.BuiltInFunctionSaveKeyValue, []byte("r"), []byte("w")))
+	add("SaveKeyValue/empty-then-set-again", long, uni.Call(A0, A0, vmcommon.BuiltInFunctionSaveKeyValue, []byte("q"), []byte{}, []byte("q"), bytes.Repeat([]byte("v"), 41)))
+	// the next owner is already a creator (delivered twice, or set by an undisciplined system contract)
+	twoCreators := after(base, uni.SetRole(B0, uni.S, vmcommon.ESDTRoleNFTCreate), uni.SetRole(C1, uni.S, vmcommon.ESDTRoleNFTCreate))
+	add("ESDTNFTCreateRoleTransfer/next-owner-already-creator", twoCreators, uni.SysCall(A0, vmcommon.BuiltInFunctionESDTNFTCreateRoleTransfer, uni.S, B0))
+	delivery("ESDTNFTCreateRoleTransfer/delivery-next-owner-already-creator", twoCreators, uni.SysCall(A0, vmcommon.BuiltInFunctionESDTNFTCreateRoleTransfer, uni.S, C1))
 	add("ChangeOwnerAddress/local", base, uni.Call(A0, S0, vmcommon.BuiltInFunctionChangeOwnerAddress, B0))
 	add("ChangeOwnerAddress/remote-sender-side", base, uni.Call(A0, S1, vmcommon.BuiltInFunctionChangeOwnerAddress, B0))
 	// the destination-side half of the owner's cross-shard calls (forwarded user transaction, A4 ii)
